@@ -1,5 +1,5 @@
 From Coq Require Import List NArith Lia Bool Arith.
-From PV Require Import Base.Bytes Base.Lit Model.Pretty.
+From PV Require Import Base.Bytes Base.Lit Model.Pretty Proofs.BytesFacts.
 Import ListNotations.
 Open Scope N_scope.
 
@@ -170,5 +170,5 @@ Proof.
   destruct docs as [|d rest].
   - inversion H; subst. cbn [join app]. rewrite run_close. reflexivity.
   - rewrite run_app, (run_docs (d :: rest) tds [TP 91] H ltac:(discriminate)), run_app, run_nl, run_close.
-    cbn [rev]. rewrite rev_app_distr, rev_involutive. cbn [rev app]. rewrite <- ?app_assoc. reflexivity.
+    rewrite frev_rev. cbn [rev]. rewrite rev_app_distr, rev_involutive. cbn [rev app]. rewrite <- ?app_assoc. reflexivity.
 Qed.
